@@ -7,13 +7,16 @@ import (
 	"net/url"
 	goruntime "runtime"
 	"sort"
+	"strconv"
 	"strings"
 	"time"
 
 	"github.com/internetarchive/Zeno/internal/pkg/preprocessor"
+	"github.com/internetarchive/Zeno/internal/pkg/source/lq/sqlc_model"
 	"github.com/internetarchive/Zeno/internal/pkg/stats"
 	"github.com/internetarchive/Zeno/pkg/models"
 	"github.com/internetarchive/Zeno/verifsim/scen"
+	"github.com/internetarchive/gocrawlhq"
 )
 
 // ---------------------------------------------------------------- C07
@@ -488,16 +491,467 @@ func (o *oC17) OnEnd(k *Kernel) {
 	}
 }
 
+// ---------------------------------------------------------------- C18 (temporal behaviour of the disk watchdog)
+
+type oC18 struct {
+	r        *e2e
+	last     DiskReading
+	haveLast bool
+	paused   bool // what the watchdog should believe
+	expect   string
+}
+
+func (o *oC18) Name() string { return "C18" }
+func (o *oC18) OnEvent(k *Kernel, ev *Event) {
+	switch ev.Point {
+	case "disk.reading":
+		if len(ev.raw) == 3 {
+			fmt.Sscan(ev.raw[0].(string), &o.last.Blocks)
+			fmt.Sscan(ev.raw[1].(string), &o.last.Bavail)
+			fmt.Sscan(ev.raw[2].(string), &o.last.Bsize)
+			o.haveLast = true
+		}
+	case "disk.verdict":
+		if !o.haveLast || len(ev.raw) < 2 {
+			return
+		}
+		if o.expect != "" {
+			k.Violate("C18", "temporal", "watchdog-missed-transition", fmt.Sprintf("expected the disk watchdog to call %s after the previous tick, but the next tick arrived first", o.expect))
+			o.expect = ""
+		}
+		total := o.last.Blocks * uint64(o.last.Bsize)
+		free := o.last.Bavail * uint64(o.last.Bsize)
+		want := refuseRef(total, free, o.r.sc.Cfg.MinSpaceGiB)
+		got := ev.raw[0] != nil
+		if got != want {
+			k.Violate("C18", "threshold", "tick-decision-differs-from-reference", fmt.Sprintf("tick with total=%d free=%d min=%g: watchdog low-space=%v, exact rule=%v", total, free, o.r.sc.Cfg.MinSpaceGiB, got, want))
+		}
+		k.Probe("c18-ticks-judged")
+		if want && !o.paused {
+			o.expect = "pause"
+			o.paused = true
+			k.Probe("c18-expected-pauses")
+		} else if !want && o.paused {
+			o.expect = "resume"
+			o.paused = false
+			k.Probe("c18-expected-resumes")
+		}
+	case "pause.pause.enter":
+		if ev.Actor == "disk.watcher" {
+			if o.expect != "pause" {
+				k.Violate("C18", "temporal", "unexpected-pause", "the disk watchdog paused the pipeline although the last reading was not below the threshold (or it was already paused)")
+			}
+			o.expect = ""
+		}
+	case "pause.resume.enter":
+		if ev.Actor == "disk.watcher" {
+			if o.expect != "resume" {
+				k.Violate("C18", "temporal", "unexpected-resume", "the disk watchdog resumed the pipeline although the last reading was still below the threshold (or it was not paused)")
+			}
+			o.expect = ""
+		}
+	case "disk.exit":
+		o.expect = ""
+	}
+}
+func (o *oC18) OnQuiescent(k *Kernel) {}
+func (o *oC18) OnEnd(k *Kernel)       {}
+
 func moreE2EOracles(r *e2e, t *tracker) []Oracle {
 	anchors := map[string][]string{}
 	if r.sc.Extra != nil && r.sc.Extra["anchors"] != "" {
 		json.Unmarshal([]byte(r.sc.Extra["anchors"]), &anchors)
 	}
+	c19 := &oC19{r: r, t: t, bucket: installBucket(r)}
+	if r.sc.Extra != nil && r.sc.Extra["docs"] != "" {
+		json.Unmarshal([]byte(r.sc.Extra["docs"]), &c19.plants)
+	}
 	return []Oracle{
+		c19,
+		&oC10{r: r, t: t},
 		&oC07{r: r, t: t, anchors: anchors},
 		newC08(r, t),
 		&oC09{r: r, t: t},
 		&oC11{r: r, before: map[string]map[string]int{}},
 		&oC17{r: r, relT: map[string]int64{}, okPending: map[string]bool{}},
+		&oC18{r: r},
+		&oC15{r: r, t: t, finIDs: map[string]bool{}, discIDs: map[string]bool{}, rowHops: map[string]int{}, rowVia: map[string]string{}},
+	}
+}
+
+// ---------------------------------------------------------------- C15 (outlinks and finish acks reach the queue)
+
+type emitted struct {
+	raw, via string
+	hops     int
+}
+
+type oC15 struct {
+	r       *e2e
+	t       *tracker
+	out     []emitted
+	finIDs  map[string]bool
+	discIDs map[string]bool
+	lqAdded []emitted
+	addErr  []string
+	rowHops map[string]int // HQ/LQ row id -> hops the queue stored
+	rowVia  map[string]string
+}
+
+func (o *oC15) Name() string { return "C15" }
+
+func (o *oC15) OnEvent(k *Kernel, ev *Event) {
+	switch ev.Point {
+	case "post.outlink":
+		if it := firstItem(ev.raw, 0); it != nil {
+			o.out = append(o.out, emitted{raw: it.GetURL().Raw, via: it.GetSeedVia(), hops: it.GetURL().GetHops()})
+			// via must be the page the link was found on
+			if seed := firstItem(ev.raw, 1); seed != nil {
+				okVia := false
+				seed.Traverse(func(n *models.Item) {
+					if n.GetURL() != nil && n.GetURL().GetParsed() != nil && n.GetURL().String() == it.GetSeedVia() {
+						okVia = true
+					}
+				})
+				if !okVia {
+					k.Violate("C15", "via", "outlink-via-not-parent-page", fmt.Sprintf("outlink %s carries via %q which is not a page of the tree it was found in (seed %s)", it.GetURL().Raw, it.GetSeedVia(), k.names.ItemSeed(seed)))
+				}
+			}
+		}
+	case "fin.finish.sent":
+		if it := firstItem(ev.raw, 0); it != nil {
+			o.finIDs[it.GetID()] = true
+		}
+	case "lq.sender.discard", "hq.sender.discard":
+		if it := firstItem(ev.raw, 0); it != nil {
+			o.discIDs[it.GetID()] = true
+		}
+	case "lq.prod.add":
+		if len(ev.raw) > 0 {
+			if us, ok := ev.raw[0].([]sqlc_model.Url); ok {
+				for _, u := range us {
+					o.lqAdded = append(o.lqAdded, emitted{raw: u.Value, via: u.Via, hops: int(u.Hops)})
+				}
+			}
+		}
+	case "lq.prod.add.error":
+		o.addErr = append(o.addErr, fmt.Sprint(ev.Args))
+	case "lq.fetch.got":
+		if len(ev.raw) > 0 {
+			if us, ok := ev.raw[0].([]sqlc_model.Url); ok {
+				for _, u := range us {
+					o.rowHops[u.ID] = int(u.Hops)
+					o.rowVia[u.ID] = u.Via
+				}
+			}
+		}
+	case "hq.fetch.got":
+		if len(ev.raw) > 0 {
+			if us, ok := ev.raw[0].([]gocrawlhq.URL); ok {
+				for _, u := range us {
+					o.rowHops[u.ID] = strings.Count(u.Path, "L")
+					o.rowVia[u.ID] = u.Via
+				}
+			}
+		}
+	case "reactor.insert.stored":
+		if it := firstItem(ev.raw, 0); it != nil {
+			if h, ok := o.rowHops[it.GetID()]; ok {
+				if it.GetURL().GetHops() != h {
+					k.Violate("C15", "hops-round-trip", "hops-lost-on-the-way-back", fmt.Sprintf("queue row %s stored %d hops, the seed built from it carries %d", k.names.ItemSeed(it), h, it.GetURL().GetHops()))
+				}
+				if it.GetSeedVia() != o.rowVia[it.GetID()] {
+					k.Violate("C15", "hops-round-trip", "via-lost-on-the-way-back", fmt.Sprintf("queue row %s stored via %q, the seed carries %q", k.names.ItemSeed(it), o.rowVia[it.GetID()], it.GetSeedVia()))
+				}
+				k.Probe("c15-round-trips-checked")
+			}
+		}
+	}
+}
+func (o *oC15) OnQuiescent(k *Kernel) {}
+
+func tupleKey(e emitted) string { return e.raw + "\x00" + e.via + "\x00" + strconv.Itoa(e.hops) }
+
+func (o *oC15) OnIdle(k *Kernel) {
+	if o.r.hq != nil {
+		calls := o.r.hq.snapshot()
+		applied := map[string]int{}
+		excessLegal := false
+		deleted := map[string]bool{}
+		for _, c := range calls {
+			if c.Fault == "reset-after" {
+				excessLegal = true
+			}
+			if !c.Applied {
+				continue
+			}
+			switch c.Kind {
+			case "add":
+				for _, u := range c.URLs {
+					applied[tupleKey(emitted{raw: u.Value, via: u.Via, hops: strings.Count(u.Path, "L")})]++
+					if strings.Trim(u.Path, "L") != "" {
+						k.Violate("C15", "intact", "bad-path-encoding", fmt.Sprintf("add for %s carries path %q", u.Value, u.Path))
+					}
+				}
+			case "delete":
+				for _, u := range c.URLs {
+					deleted[u.ID] = true
+				}
+			}
+		}
+		want := map[string]int{}
+		for _, e := range o.out {
+			want[tupleKey(e)]++
+		}
+		for key, n := range want {
+			if applied[key] < n {
+				parts := strings.Split(key, "\x00")
+				k.Violate("C15", "delivered", "outlink-never-reached-hq", fmt.Sprintf("outlink %s (via %s, hops %s) was emitted %d time(s) but applied at crawl HQ %d time(s); HQ calls: %s", parts[0], parts[1], parts[2], n, applied[key], summarizeCalls(calls)))
+			}
+			if applied[key] > n && !excessLegal {
+				k.Violate("C15", "delivered", "outlink-duplicated-at-hq", fmt.Sprintf("%q applied %d times, emitted %d times, and no call was applied-then-lost", key, applied[key], n))
+			}
+		}
+		for key := range applied {
+			if want[key] == 0 {
+				k.Violate("C15", "intact", "hq-received-something-never-emitted", fmt.Sprintf("crawl HQ was given %q which the pipeline never emitted in that form", strings.ReplaceAll(key, "\x00", " | ")))
+			}
+		}
+		for id := range o.finIDs {
+			if !deleted[id] {
+				k.Violate("C15", "delivered", "finish-ack-never-reached-hq", fmt.Sprintf("seed %s was finished but crawl HQ never got a delete for it; HQ calls: %s", nameOr(k, id), summarizeCalls(calls)))
+			}
+		}
+		for id := range deleted {
+			if !o.finIDs[id] && !o.discIDs[id] {
+				k.Violate("C15", "intact", "hq-delete-for-unfinished", fmt.Sprintf("crawl HQ got a delete for %s which was never finished", nameOr(k, id)))
+			}
+		}
+		k.Probes["c15-hq-calls"] += len(calls)
+		k.Probes["c15-outlinks-emitted"] += len(o.out)
+		return
+	}
+	// local queue
+	added := map[string]int{}
+	for _, e := range o.lqAdded {
+		added[tupleKey(e)]++
+	}
+	for _, e := range o.out {
+		if added[tupleKey(e)] == 0 {
+			k.Violate("C15", "delivered", "outlink-never-reached-queue", fmt.Sprintf("outlink %s (via %s, hops %d) was emitted but never handed to the local queue in that form", e.raw, e.via, e.hops))
+		}
+	}
+	for _, e := range o.addErr {
+		k.Violate("C15", "delivered", "queue-batch-dropped", "a batch of outlinks was dropped by the local queue: "+e)
+	}
+	k.Probes["c15-outlinks-emitted"] += len(o.out)
+}
+
+func nameOr(k *Kernel, id string) string {
+	if nm, ok := k.names.Lookup(id); ok {
+		return nm
+	}
+	return id
+}
+
+func summarizeCalls(calls []*HQCall) string {
+	var sb strings.Builder
+	for _, c := range calls {
+		if c.Kind == "get" && len(c.Out) == 0 {
+			continue
+		}
+		fmt.Fprintf(&sb, "%s#%d", c.Kind, c.N)
+		if c.Fault != "" {
+			sb.WriteString("[" + c.Fault + "]")
+		}
+		if !c.Applied {
+			sb.WriteString("!")
+		}
+		sb.WriteByte(' ')
+	}
+	return sb.String()
+}
+
+func (o *oC15) OnEnd(k *Kernel) {
+	if o.r.hq != nil || !o.r.stopReturned {
+		return
+	}
+	rows, err := QueueRows(o.r.jobPath)
+	if err != nil {
+		return
+	}
+	seen := map[string]bool{}
+	for _, row := range rows {
+		if seen[row["value"]] {
+			k.Violate("C15", "no-duplicate", "url-queued-twice", row["value"])
+		}
+		seen[row["value"]] = true
+	}
+}
+
+// ---------------------------------------------------------------- C19 (structured documents, bucket walk)
+
+type oC19 struct {
+	r      *e2e
+	t      *tracker
+	plants []scen.DocPlant
+	bucket *scen.BucketSpec
+}
+
+func (o *oC19) Name() string { return "C19" }
+
+func (o *oC19) queued(seed string) map[string]bool {
+	got := map[string]bool{}
+	for _, ol := range o.t.outlinks {
+		if seed == "" || ol.seed == seed {
+			got[ol.raw] = true
+			if pu, err := url.Parse(ol.raw); err == nil {
+				got[pu.String()] = true
+			}
+		}
+	}
+	return got
+}
+
+func (o *oC19) OnEvent(k *Kernel, ev *Event) {
+	if ev.Point != "fin.finish.send" || len(o.plants) == 0 {
+		return
+	}
+	nm := k.names.ItemSeed(firstItem(ev.raw, 0))
+	for _, p := range o.plants {
+		if p.Seed != nm {
+			continue
+		}
+		q := o.queued(nm)
+		var missA, missO []string
+		for _, a := range p.Assets {
+			fetched := o.t.requestedBefore(uriKey(a), ev.Step)
+			if p.Kind == "sitemap" {
+				if !fetched && !q[a] {
+					missO = append(missO, a)
+				}
+			} else if !fetched {
+				missA = append(missA, a)
+			}
+		}
+		for _, u := range p.Outlinks {
+			if !q[u] {
+				missO = append(missO, u)
+			}
+		}
+		if len(missA) > 0 {
+			k.Violate("C19", "documents", p.Kind+"-asset-not-fetched", fmt.Sprintf("%s document %s: planted URLs with a file extension were never fetched as assets: %v", p.Kind, p.Doc, missA))
+		}
+		if len(missO) > 0 {
+			k.Violate("C19", "documents", p.Kind+"-link-not-queued", fmt.Sprintf("%s document %s (max-hops %d): planted URLs were never queued as outlinks: %v", p.Kind, p.Doc, o.r.sc.Cfg.MaxHops, missO))
+		}
+		if len(missA)+len(missO) == 0 {
+			k.Probe("c19-document-verified-" + p.Kind)
+		}
+	}
+}
+func (o *oC19) OnQuiescent(k *Kernel) {}
+func (o *oC19) OnEnd(k *Kernel)       {}
+
+func (o *oC19) OnIdle(k *Kernel) {
+	if o.bucket == nil {
+		return
+	}
+	q := o.queued("")
+	var missing, zero []string
+	nonZero := 0
+	for _, ob := range o.bucket.Objects {
+		u := (&url.URL{Scheme: "https", Host: o.bucket.Host, Path: "/" + ob.Key}).String()
+		if ob.Size > 0 {
+			nonZero++
+			if !q[u] {
+				missing = append(missing, ob.Key)
+			}
+		} else if q[u] {
+			zero = append(zero, ob.Key)
+		}
+	}
+	listings := 0
+	seen := map[string]int{}
+	for _, e := range o.r.net.Snapshot() {
+		if hostOnly2(e.Host) == o.bucket.Host && (strings.HasPrefix(e.URI, "/?") || e.URI == "/") {
+			listings++
+			seen[e.URI]++
+		}
+	}
+	desc := fmt.Sprintf("bucket api=%s delimiter=%v page-size=%d objects=%d (non-empty %d), %d listing requests", o.bucket.API, o.bucket.Delimiter, o.bucket.PageSize, len(o.bucket.Objects), nonZero, listings)
+	if len(missing) > 0 {
+		sort.Strings(missing)
+		k.Violate("C19", "bucket-walk", "bucket-object-never-queued", fmt.Sprintf("%s: the walk ended but these non-empty objects were never queued: %v", desc, missing))
+	}
+	if len(zero) > 0 {
+		k.Violate("C19", "bucket-walk", "empty-object-queued", fmt.Sprintf("%s: zero-size objects were queued: %v", desc, zero))
+	}
+	prefixes := map[string]bool{}
+	for _, ob := range o.bucket.Objects {
+		parts := strings.Split(ob.Key, "/")
+		for i := 1; i < len(parts); i++ {
+			prefixes[strings.Join(parts[:i], "/")] = true
+		}
+	}
+	bound := (len(o.bucket.Objects)/o.bucket.PageSize+2)*(len(prefixes)+1) + 4
+	if listings > bound {
+		k.Violate("C19", "bucket-walk", "too-many-listing-requests", fmt.Sprintf("%s: bound %d", desc, bound))
+	}
+	for u, n := range seen {
+		if n > 1 && o.r.sc.Cfg.Seencheck {
+			k.Violate("C19", "bucket-walk", "listing-page-requested-twice", fmt.Sprintf("%s: %s requested %d times", desc, u, n))
+		}
+	}
+	k.Probe("c19-bucket-walks-" + o.bucket.API)
+	k.Probes["c19-listing-requests"] += listings
+}
+
+// ---------------------------------------------------------------- C10 (blast radius of hostile input)
+
+type oC10 struct {
+	r *e2e
+	t *tracker
+}
+
+func (o *oC10) Name() string                 { return "C10" }
+func (o *oC10) OnEvent(k *Kernel, ev *Event) {}
+func (o *oC10) OnQuiescent(k *Kernel)        {}
+func (o *oC10) OnEnd(k *Kernel)              {}
+func (o *oC10) OnIdle(k *Kernel) {
+	hostile := 0
+	for _, res := range o.r.sc.Site {
+		if res.Tags["hostile"] != "" {
+			hostile++
+		}
+	}
+	if hostile == 0 {
+		return
+	}
+	var pending []string
+	for _, nm := range o.t.takenIDs {
+		if o.t.finRecv[nm] == 0 {
+			pending = append(pending, nm)
+		}
+	}
+	if len(pending) > 0 {
+		sort.Strings(pending)
+		k.Violate("C10", "confined", "seed-stuck-after-hostile-input", fmt.Sprintf("the crawl went idle (or nothing moved for %v of simulated time) with seeds never finished: %v; parked: %v", hangBound, pending, k.ParkedSummary()))
+	}
+	var miss []string
+	for key, res := range o.r.sc.Site {
+		if res.Tags["bystander"] != "" && res.Expect == scen.Must && o.t.taken[res.Seed] > 0 && !o.t.requestedBefore(key, 1<<30) {
+			miss = append(miss, key)
+		}
+	}
+	if len(miss) > 0 {
+		sort.Strings(miss)
+		k.Violate("C10", "confined", "bystander-url-not-fetched", fmt.Sprintf("URLs of well-behaved seeds were never fetched: %v", miss))
+	}
+	k.Probes["c10-hostile-documents"] += hostile
+	for _, e := range o.r.net.Snapshot() {
+		if res := o.r.sc.Site[e.Key]; res != nil && res.Tags["hostile"] != "" {
+			k.Probe("c10-hostile-served-" + res.Tags["hostile"])
+		}
 	}
 }
